@@ -220,40 +220,11 @@ pub fn object_keys(
                 .filter(|k| !k.is_symbol())
                 .map(|k| JsValue::String(JsString::from(k.to_string())))
                 .collect()
-        } else if let ExoticObject::Array { ref elements } = obj.exotic {
-            // For arrays, include numeric indices first (0, 1, 2, ...), then other enumerable properties
-            let len = elements.len();
-            let mut result: Vec<JsValue> = (0..len)
-                .map(|i| JsValue::String(JsString::from(i.to_string())))
-                .collect();
-            // Add any other enumerable string properties (like "length" is not enumerable)
-            // Skip numeric index keys since they're already covered above
-            for (key, prop) in obj.properties.iter() {
-                if prop.enumerable() && !key.is_symbol() {
-                    // Skip if this is a numeric index that's already covered by elements
-                    let is_covered_index = match key {
-                        PropertyKey::Index(idx) => (*idx as usize) < len,
-                        PropertyKey::String(s) => {
-                            if let Ok(idx) = s.as_str().parse::<usize>() {
-                                idx < len
-                            } else {
-                                false
-                            }
-                        }
-                        PropertyKey::Symbol(_) => false,
-                    };
-                    if !is_covered_index {
-                        result.push(JsValue::String(JsString::from(key.to_string())));
-                    }
-                }
-            }
-            result
         } else {
-            // Standard object - get from properties
-            // Only include enumerable string keys, not symbols
-            obj.properties
-                .iter()
-                .filter(|(key, prop)| prop.enumerable() && !key.is_symbol())
+            drop(obj);
+            own_enumerable_slots(&JsValue::Object(obj_ref.cheap_clone()))
+                .into_iter()
+                .filter(|(key, _)| !key.is_symbol())
                 .map(|(key, _)| JsValue::String(JsString::from(key.to_string())))
                 .collect()
         }
@@ -269,29 +240,30 @@ pub fn object_values(
     _this: JsValue,
     args: &[JsValue],
 ) -> Result<Guarded, JsError> {
-    let obj = args.first().cloned().unwrap_or(JsValue::Undefined);
-    let JsValue::Object(obj_ref) = obj else {
+    let arg = args.first().cloned().unwrap_or(JsValue::Undefined);
+    // Primitives are boxed, null/undefined throw
+    let Guarded {
+        value: obj,
+        guard: _obj_guard,
+    } = interp.to_object(arg)?;
+    let JsValue::Object(obj_ref) = &obj else {
         return Err(JsError::type_error("Object.values requires an object"));
     };
 
-    let values: Vec<JsValue> = {
-        let obj = obj_ref.borrow();
-
-        // For enums, get values from EnumData
-        if let ExoticObject::Enum(ref data) = obj.exotic {
-            data.values()
-        } else {
-            // Standard object - get from properties
-            // Only include enumerable string keys, not symbols
-            obj.properties
-                .iter()
-                .filter(|(key, prop)| prop.enumerable() && !key.is_symbol())
-                .map(|(_, prop)| prop.value.clone())
-                .collect()
-        }
+    let guard = interp.heap.create_guard();
+    // For enums, get values from EnumData
+    let enum_values = match obj_ref.borrow().exotic {
+        ExoticObject::Enum(ref data) => Some(data.values()),
+        _ => None,
+    };
+    let values: Vec<JsValue> = match enum_values {
+        Some(values) => values,
+        None => own_enumerable_values(interp, &obj, &guard)?
+            .into_iter()
+            .map(|(_, v)| v)
+            .collect(),
     };
 
-    let guard = interp.heap.create_guard();
     let arr = interp.create_array_from(&guard, values);
     Ok(Guarded::with_guard(JsValue::Object(arr), guard))
 }
@@ -301,31 +273,28 @@ pub fn object_entries(
     _this: JsValue,
     args: &[JsValue],
 ) -> Result<Guarded, JsError> {
-    let obj = args.first().cloned().unwrap_or(JsValue::Undefined);
-    let JsValue::Object(obj_ref) = obj else {
+    let arg = args.first().cloned().unwrap_or(JsValue::Undefined);
+    // Primitives are boxed, null/undefined throw
+    let Guarded {
+        value: obj,
+        guard: _obj_guard,
+    } = interp.to_object(arg)?;
+    let JsValue::Object(obj_ref) = &obj else {
         return Err(JsError::type_error("Object.entries requires an object"));
-    };
-
-    // Collect key-value pairs first to release the borrow
-    let pairs: Vec<(String, JsValue)> = {
-        let obj = obj_ref.borrow();
-
-        // For enums, get entries from EnumData
-        if let ExoticObject::Enum(ref data) = obj.exotic {
-            data.entries()
-        } else {
-            // Standard object - get from properties
-            // Only include enumerable string keys, not symbols
-            obj.properties
-                .iter()
-                .filter(|(key, prop)| prop.enumerable() && !key.is_symbol())
-                .map(|(key, prop)| (key.to_string(), prop.value.clone()))
-                .collect()
-        }
     };
 
     // Use single guard for all entry arrays
     let guard = interp.heap.create_guard();
+    // For enums, get entries from EnumData
+    let enum_entries = match obj_ref.borrow().exotic {
+        ExoticObject::Enum(ref data) => Some(data.entries()),
+        _ => None,
+    };
+    let pairs: Vec<(String, JsValue)> = match enum_entries {
+        Some(entries) => entries,
+        None => own_enumerable_values(interp, &obj, &guard)?,
+    };
+
     let mut entries: Vec<JsValue> = Vec::with_capacity(pairs.len());
     for (key, value) in pairs {
         let arr =
@@ -337,12 +306,168 @@ pub fn object_entries(
     Ok(Guarded::with_guard(JsValue::Object(result), guard))
 }
 
+/// An own enumerable property as found: a value, or a getter still to be called
+pub enum PropertySlot {
+    Value(JsValue),
+    Getter(crate::Gc<crate::JsObject>),
+}
+
+/// The own enumerable properties of a value, symbols included, in enumeration order:
+/// array elements and the characters of a string first, then the property table.
+pub fn own_enumerable_slots(source: &JsValue) -> Vec<(PropertyKey, PropertySlot)> {
+    let mut entries: Vec<(PropertyKey, PropertySlot)> = Vec::new();
+    let push_chars = |entries: &mut Vec<(PropertyKey, PropertySlot)>, text: &str| {
+        for (i, ch) in text.chars().enumerate() {
+            entries.push((
+                PropertyKey::Index(i as u32),
+                PropertySlot::Value(JsValue::String(JsString::from(ch.to_string()))),
+            ));
+        }
+    };
+    match source {
+        JsValue::String(text) => push_chars(&mut entries, text.as_str()),
+        JsValue::Object(src_ref) => {
+            let src = src_ref.borrow();
+            let mut covered = 0usize;
+            match &src.exotic {
+                ExoticObject::Array { elements } => {
+                    covered = elements.len();
+                    for (i, v) in elements.iter().enumerate() {
+                        entries.push((
+                            PropertyKey::Index(i as u32),
+                            PropertySlot::Value(v.clone()),
+                        ));
+                    }
+                }
+                ExoticObject::StringObj(text) => {
+                    covered = text.as_str().chars().count();
+                    push_chars(&mut entries, text.as_str());
+                }
+                _ => {}
+            }
+            for (key, prop) in src.properties.iter() {
+                if !prop.enumerable() {
+                    continue;
+                }
+                // an index below the element count was listed above
+                if let PropertyKey::Index(idx) = key
+                    && (*idx as usize) < covered
+                {
+                    continue;
+                }
+                if prop.is_accessor() {
+                    match prop.getter() {
+                        Some(getter) => entries.push((
+                            key.clone(),
+                            PropertySlot::Getter(getter.cheap_clone()),
+                        )),
+                        None => {
+                            entries.push((key.clone(), PropertySlot::Value(JsValue::Undefined)))
+                        }
+                    }
+                } else {
+                    entries.push((key.clone(), PropertySlot::Value(prop.value.clone())));
+                }
+            }
+        }
+        // undefined, null, numbers, booleans and symbols have no own enumerable properties
+        _ => {}
+    }
+    entries
+}
+
+/// Own enumerable string-keyed properties with their values (getters invoked), for
+/// Object.values / Object.entries
+fn own_enumerable_values(
+    interp: &mut Interpreter,
+    source: &JsValue,
+    guard: &crate::gc::Guard<crate::JsObject>,
+) -> Result<Vec<(String, JsValue)>, JsError> {
+    let mut out = Vec::new();
+    for (key, slot) in own_enumerable_slots(source) {
+        if key.is_symbol() {
+            continue;
+        }
+        let value = match slot {
+            PropertySlot::Value(v) => v,
+            PropertySlot::Getter(getter) => {
+                let Guarded { value, guard: _g } =
+                    interp.call_function(JsValue::Object(getter), source.clone(), &[])?;
+                value
+            }
+        };
+        if let JsValue::Object(o) = &value {
+            guard.guard(o.cheap_clone());
+        }
+        out.push((key.to_string(), value));
+    }
+    Ok(out)
+}
+
+/// Copy the own enumerable properties of `source` to `target` (Object.assign and object
+/// spread).  Array elements and the characters of a string are properties like any
+/// other, getters of the source are invoked, and with `use_setters` (Object.assign) an
+/// accessor of the target receives the value instead of being replaced.
+pub fn copy_data_properties(
+    interp: &mut Interpreter,
+    target: &crate::Gc<crate::JsObject>,
+    source: &JsValue,
+    use_setters: bool,
+) -> Result<(), JsError> {
+    let entries = own_enumerable_slots(source);
+
+    for (key, slot) in entries {
+        let (value, _value_guard) = match slot {
+            PropertySlot::Value(v) => (v, None),
+            PropertySlot::Getter(getter) => {
+                let Guarded { value, guard } =
+                    interp.call_function(JsValue::Object(getter), source.clone(), &[])?;
+                (value, guard)
+            }
+        };
+        let setter = if use_setters {
+            target
+                .borrow()
+                .get_property_descriptor(&key)
+                .and_then(|(prop, _)| {
+                    if prop.is_accessor() {
+                        Some(prop.setter().map(|s| s.cheap_clone()))
+                    } else {
+                        None
+                    }
+                })
+        } else {
+            None
+        };
+        match setter {
+            Some(Some(setter)) => {
+                interp.call_function(
+                    JsValue::Object(setter),
+                    JsValue::Object(target.cheap_clone()),
+                    &[value],
+                )?;
+            }
+            // an accessor without a setter: the assignment has no effect
+            Some(None) => {}
+            None => {
+                target.borrow_mut().set_property(key, value);
+            }
+        }
+    }
+    Ok(())
+}
+
 pub fn object_assign(
-    _interp: &mut Interpreter,
+    interp: &mut Interpreter,
     _this: JsValue,
     args: &[JsValue],
 ) -> Result<Guarded, JsError> {
     let target = args.first().cloned().unwrap_or(JsValue::Undefined);
+    // A primitive target is boxed; undefined and null are rejected
+    let Guarded {
+        value: target,
+        guard,
+    } = interp.to_object(target)?;
     let JsValue::Object(target_ref) = target.clone() else {
         return Err(JsError::type_error(
             "Object.assign requires an object target",
@@ -350,20 +475,13 @@ pub fn object_assign(
     };
 
     for source in args.iter().skip(1) {
-        if let JsValue::Object(src_ref) = source {
-            let src = src_ref.borrow();
-            for (key, prop) in src.properties.iter() {
-                if prop.enumerable() {
-                    target_ref
-                        .borrow_mut()
-                        .set_property(key.clone(), prop.value.clone());
-                }
-            }
-        }
+        copy_data_properties(interp, &target_ref, source, true)?;
     }
 
-    // Target was passed in by caller, so it's already owned - no guard needed
-    Ok(Guarded::unguarded(target))
+    Ok(Guarded {
+        value: target,
+        guard,
+    })
 }
 
 pub fn object_from_entries(
